@@ -349,5 +349,5 @@ MANIFEST = {
     "level": "Static decision: validate()'s raise condition is decided for all offsets/sizes of up to two children by exhaustive order-type evaluation of its syntax tree; "
              "__len__ likewise on a representative grid; export/save structure (windows, layer order, addresses) is decided on the AST. File-format libraries are trusted.",
     "note": "Trusted: bincopy, memoryview slice assignment, align/align_block (C20). Not decided: pattern contents, deep trees beyond the inductive per-node rules.",
-    "technique": "static analysis: order-type evaluation of guards on small object graphs, slice-window and layer-order rules on the AST",
+    "technique": "static analysis: order-type evaluation of guards on small object graphs, slice-window and layer-order rules on the AST, finite-model evaluation of export (memoryview aliasing model), validate, save formats (recorder model) and the fill pattern",
 }
